@@ -38,6 +38,7 @@ type fnInfo struct {
 
 var fnInfoCache sync.Map
 var traceCalls = os.Getenv("GOSYM_TRACE") != ""
+var debugPC = os.Getenv("GOSYM_DEBUG_PC") != ""
 
 func getFnInfo(fn *ssa.Function) *fnInfo {
 	if fi, ok := fnInfoCache.Load(fn); ok {
@@ -130,6 +131,7 @@ type Exec struct {
 	pending    []workItem // alternatives discovered on this path
 	threads    *threadState
 	syncLen    int
+	ufIdx      map[string]int
 	implied    map[int]int
 	inInitGuard bool
 	cpos       int
@@ -233,9 +235,7 @@ func (ex *Exec) decideEx(conds []*Term, vals []uint64) int {
 	if vals != nil {
 		d.val, d.hasVal = vals[feas[0]], true
 	}
-	if models[0] != nil {
-		ex.model = models[0]
-	}
+	ex.model = models[0] // nil when the solver answered unknown: the old model need not satisfy the new constraint
 	ex.record(d, conds[feas[0]])
 	return feas[0]
 }
@@ -246,6 +246,16 @@ func (ex *Exec) record(d dec, cond *Term) {
 	ex.decisions = append(ex.decisions, d)
 	if d.asserted {
 		ex.pcTerms = append(ex.pcTerms, cond)
+	}
+	if debugPC && ex.model != nil && ex.pos > len(ex.prefix) {
+		memo := map[int]uint64{}
+		for k, t := range ex.pcTerms {
+			if v, ok := ex.tc.Eval(t, ex.model, memo); ok && v == 0 {
+				fmt.Fprintf(os.Stderr, "MODEL STALE at decision %d (asserted=%v choice=%d): pc term %d false: %s\n", i, d.asserted, d.choice, k, t.String())
+				debugPC = false
+				break
+			}
+		}
 	}
 	if i < len(ex.lastLevels) && ex.lastLevels != nil && i < ex.syncLen {
 		// scope already present in the solver from the previous path on this worker
@@ -261,6 +271,10 @@ func (ex *Exec) record(d dec, cond *Term) {
 		lvl = ex.solver.Level()
 	}
 	ex.levelAfter = append(ex.levelAfter, lvl)
+	if debugPC && lvl != len(ex.pcTerms) {
+		fmt.Fprintf(os.Stderr, "SYNC BUG: decision %d level %d but %d asserted constraints (syncLen %d, prefix %d)\n", i, lvl, len(ex.pcTerms), ex.syncLen, len(ex.prefix))
+		debugPC = false
+	}
 }
 
 // feasible reports whether pc ∧ c is satisfiable ("unknown" counts as feasible).
@@ -278,7 +292,7 @@ func (ex *Exec) feasible(c *Term) (bool, Model) {
 		return false, nil
 	}
 	if _, ok := ex.implied[c.id]; ok {
-		return true, nil
+		return true, ex.model // implied by the path condition: any model of it still is one
 	}
 	if ex.solver == nil {
 		ex.inconclusive("symbolic branch in concrete mode")
@@ -309,6 +323,10 @@ func (ex *Exec) fetchModel() Model {
 	}
 	m, err := ex.solver.GetValues(vars)
 	if err != nil {
+		if debugPC {
+			fmt.Fprintln(os.Stderr, "GetValues error:", err)
+		}
+		ex.h.note("model retrieval failed: " + err.Error())
 		return nil
 	}
 	return m
@@ -333,9 +351,7 @@ func (ex *Exec) assume(c *Term) {
 		panic(pathEnd{kind: "assume"})
 	}
 	ex.pos++
-	if m != nil {
-		ex.model = m
-	}
+	ex.model = m
 	ex.record(dec{choice: 0, asserted: true}, c)
 }
 
@@ -1198,8 +1214,13 @@ func (ex *Exec) floatBits(f *Term) *Term {
 	if f.op == OBToF {
 		return f.args[0]
 	}
-	ex.mndSeq++
-	b := ex.tc.Var(fmt.Sprintf("fb%d_%d", f.id, w), BV(w))
+	key := fmt.Sprintf("fb_%d", f.id)
+	k, ok := ex.ufIdx[key]
+	if !ok {
+		k = len(ex.ufIdx)
+		ex.ufIdx[key] = k
+	}
+	b := ex.tc.Var(fmt.Sprintf("fb%d_%d", k, w), BV(w))
 	// structural equality: NaN payloads are not tracked (single NaN in SMT)
 	ex.assume(ex.tc.Eq(ex.tc.Conv(OBToF, b, f.sort), f))
 	return b
